@@ -108,6 +108,8 @@ VALS = [
     L(T(L(I(1), NONE), S("q"))),
     D([S("k"), L(I(1), I(2))], [I(0), L(I(8), I(9))]),
     D([I(1), D([S("c"), I(1)])], [I(77), D([S("c"), I(2)])]),
+    D([I(77), D([S("c"), I(2)])], [I(1), D([S("c"), I(1)])], [I(0), D([S("c"), I(3)])], [I(2), D([S("d"), I(4)])]),
+    D([S("nope"), I(5)], [I(1), I(6)], [I(0), I(7)], [I(2), I(8)]),
     D([I(1), I(4)]),
     L(L(I(1), I(2), I(3)), L(I(2), I(3), I(4))),
     D([I(20), L(I(1), I(2), I(3))], [I(21), L(I(2), I(3), I(4))]),
@@ -190,6 +192,15 @@ def cases_for(spec, variant=None, limit=400, seed=0, extra_vals=()):
                 if name == "bunch":
                     pool = eids if "edgestats" in spec.qual else nids
                     combo[i] = L(*rng.sample(pool, rng.randint(0, len(pool)))) if r < 0.9 else combo[i]
+                elif name == "values" and r < 0.7:
+                    # attribute setters: a dict keyed by ids of the network, with an unknown id in first, middle or last position
+                    pool = list(eids if "edge_attributes" in spec.qual else nids)
+                    rng.shuffle(pool)
+                    rows = [[k, (D([S("c"), I(j + 1)]) if r < 0.35 else I(j + 1))] for j, k in enumerate(pool[:3])]
+                    rows.insert(rng.choice([0, 0, len(rows) // 2, len(rows)]), [S("no-such-id"), (D([S("c"), I(9)]) if r < 0.35 else I(9))])
+                    combo[i] = D(*rows)
+                elif name == "name" and "_attributes" in spec.qual and r < 0.9:
+                    combo[i] = NONE if r < 0.5 else S("weight")
                 elif name in ("order", "weight", "degree", "max_order"):
                     combo[i] = NONE if r < 0.6 else (I(rng.randint(0, 2)) if r < 0.9 else combo[i])
                 elif name in NODE_PARAMS and nids and r < 0.7:
